@@ -14,11 +14,10 @@ import (
 	"fmt"
 	"os"
 	"path/filepath"
+	"runtime"
 	"sort"
 	"strings"
 	"sync"
-	"sync/atomic"
-	"time"
 
 	"github.com/ontio/ontology-crypto/keypair"
 	"github.com/ontio/ontology/account"
@@ -340,27 +339,18 @@ type led struct {
 	prev *types.Header
 }
 
-var tRestore, tOracle, tOffer int64
-
 func (l *led) restore() error {
-	t0 := time.Now()
-	defer func() { atomic.AddInt64(&tRestore, int64(time.Since(t0))) }()
-	t1 := time.Now()
 	if l.c.Ledger != nil {
 		if err := l.c.Close(); err != nil {
 			return err
 		}
 	}
-	t2 := time.Now()
 	if err := chain.CopyDir(l.snap, l.c.Dir); err != nil {
 		return err
 	}
-	t3 := time.Now()
 	if err := l.c.OpenSame(); err != nil {
 		return err
 	}
-	atomic.AddInt64(&tOracle, int64(t2.Sub(t1)))
-	atomic.AddInt64(&tOffer, int64(t3.Sub(t2)))
 	h, err := l.c.Ledger.GetHeaderByHash(l.c.Ledger.GetCurrentBlockHash())
 	if err != nil {
 		return err
@@ -539,11 +529,16 @@ func main() {
 	r := vf.NewRun("C32", "exploration",
 		"VBFT ledgers with N in {4,7,10} generated peers (C=(N-1)/3), 2 honest blocks, then candidate next headers (valid height/prev/timestamp/block root/VbftBlockInfo payload) whose Bookkeepers/SigData come from 16 list shapes (honest, permuted, below quorum, quorum listed but 1..C signing, padded, one signature repeated, one member repeated, duplicate keys, non-members listed/signing, other-hash, garbage, empty, bad first signature, random mix); each offered as bytes to AddHeaders and AddBlock on a ledger restored from the snapshot after every acceptance; distinct by (N, shape, key list, signature list)")
 	scratch := vf.Scratch("c32")
-	defer os.RemoveAll(scratch)
 	rng := vf.NewRNG(vf.Seed())
 	shs := shapes()
-	total := vf.N(2000, 50000)
-	workers := 8
+	total := vf.N(2000, 24000)  // headers; each is offered on two paths (4 000 / 48 000 offers)
+	workers := runtime.NumCPU() // reopening a ledger is allocation heavy; more than ~6 workers only adds contention
+	if workers > 6 {
+		workers = 6
+	}
+	if workers < 2 {
+		workers = 2
+	}
 	var all []*outcome
 	mInfo := map[string]interface{}{}
 	for ni, N := range []int{4, 7, 10} {
@@ -616,19 +611,6 @@ func main() {
 			}
 			leds = append(leds, l)
 			pool <- l
-		}
-		if os.Getenv("C32_BENCH") != "" {
-			t0 := time.Now()
-			for k := 0; k < 20; k++ {
-				leds[0].restore()
-			}
-			fmt.Fprintf(os.Stderr, "BENCH 20 restores single-threaded: %v\n", time.Since(t0))
-			t0 = time.Now()
-			for k := 0; k < 20; k++ {
-				leds[0].c.Close()
-				leds[0].c.OpenSame()
-			}
-			fmt.Fprintf(os.Stderr, "BENCH 20 reopen single-threaded: %v\n", time.Since(t0))
 		}
 		nCases := total / 3
 		outs := make([]*outcome, nCases)
@@ -767,6 +749,5 @@ func main() {
 	r.Assume("membership = the peer keys of the genesis chain config (no config change block in the workload); D counts a member as signer when ANY signature of SigData verifies for its key over the header hash, listed or not (the most lenient reading, so every reported acceptance has fewer than C+1 valid signers under every reading)")
 	r.Assume("headers reach the ledger as bytes; blocks offered to AddBlock are empty (state root argument unchecked), block root taken from the ledger itself")
 	os.RemoveAll(scratch)
-	fmt.Fprintf(os.Stderr, "PROF restore=%v close=%v copy=%v\n", time.Duration(tRestore), time.Duration(tOracle), time.Duration(tOffer))
 	r.Finish()
 }
